@@ -631,6 +631,46 @@ def k_names(chk, ctx, rng, n_big):
             if ans.startswith('ok ') and [int(x) for x in ans.split()[1].split(',')] == impl: chk.k_ok(op)
             else: chk.k_bad(op, inp, impl, ans, 'deme names after the record differ')
 
+def k_slice(chk, ctx, rng, n):
+    """`DemesUtil.slice(g, t)`: start time and every epoch (end time, start size, end size, size function) of every surviving deme
+    of random multi-epoch graphs vs the translated `_shift_deme_time` / `_size_at`"""
+    dadi = ctx['dadi']; drv = ctx['driver']
+    for it in range(n):
+        h = S.History(rng, max_live=4, small_Ne=True, cut_prob=0.85, fn_probs=(0.2, 0.45, 0.35))
+        gd = h.graph_dict(); g = resolve(gd)
+        tmax = h.bounds[0] * 1.2
+        cands = [float(rng.uniform(0, tmax)) for _ in range(3)] + [float(b) for b in h.bounds[:-1] if rng.random() < 0.3]
+        for t in cands:
+            if t <= 0: continue
+            src = resolve(gd).asdict()
+            try:
+                g2 = dadi.Demes.DemesUtil.slice(g, t)
+            except Exception as e:
+                chk.k_skipped += 1; chk.stat('K-slice:raises:' + type(e).__name__); continue
+            for d in src['demes']:
+                if d['start_time'] <= t: continue
+                eps = ';'.join('%s:%s:%s:%s' % (e['size_function'], common.rat(e['start_size']), common.rat(e['end_size']), common.rat(e['end_time'])) for e in d['epochs'])
+                ans = drv.ask('c16 slice %s %s %s' % (common.rat(t), tstr(float(d['start_time'])), eps))
+                inp = dict(graph=enc(gd), t=t, deme=d['name'])
+                if not ans.startswith('ok '):
+                    chk.k_bad('slice', inp, None, ans, 'model error'); continue
+                _, start, body = ans.split(' ', 2)
+                real = g2[d['name']]
+                model = []
+                for x in body.split(';'):
+                    fn, ss, es, et = x.split(':')
+                    model.append((fn, float(Fraction(ss)), None if es == 'none' else eval_sym(es), float(Fraction(et))))
+                impl = [(e.size_function, float(e.start_size), float(e.end_size), float(e.end_time)) for e in real.epochs]
+                ok = len(model) == len(impl) and (start == 'inf') == (real.start_time == INF) and (start == 'inf' or abs(float(Fraction(start)) - real.start_time) <= 1e-12 * max(1.0, abs(real.start_time)))
+                if ok:
+                    for m, i_ in zip(model, impl):
+                        # demes normalises a non-constant epoch whose sizes coincide to 'constant'; compare numbers
+                        if m[2] is None or not common.close([i_[1], i_[2], i_[3]], [m[1], m[2], m[3]], rtol=1e-12, atol=1e-300)[0]: ok = False
+                        if m[0] != i_[0] and not (i_[1] == i_[2]): ok = False
+                (chk.k_ok('slice') if ok else chk.k_bad('slice', inp, impl, model, 'sliced epochs differ'))
+                cut = [e for e in d['epochs'] if e['end_time'] < t]
+                chk.stat('K-slice:cut-epoch-%s' % ('first' if (len(model) == 1) else 'later'))
+
 # ------------------------------------------------------------------------------------------------- L3
 def scale_graph(gd, c=1.0, tmul=1.0, unit=None, generation_time=None):
     """the same history with sizes and times multiplied by c and rates divided by c; times further multiplied by tmul and
@@ -755,6 +795,35 @@ def l3_graph_vs_program(chk, ctx, rng, n, want_ancient, budget):
         if anc: chk.stat('ancient:' + ('only' if allanc else 'mixed'))
         chk.sample(dict(family=fam, events=h.describe()['events'], samples=h.samples, axes=dmax, verdict=v))
 
+def l3_slice(chk, ctx, rng, n, budget):
+    """only ancient samples (the graph is sliced at the youngest sample time): multi-epoch demes of mixed size functions, the slice time
+    inside the first / a middle / the last epoch of a deme or exactly at an epoch boundary, that deme sampled or an unsampled contemporary"""
+    dadi = ctx['dadi']
+    done = 0; tries = 0
+    while done < n and tries < 10 * n:
+        tries += 1
+        if DEADLINE[0] is not None and time.time() > DEADLINE[0] + 30: chk.stat('stopped:deadline'); break
+        mode = S.SLICE_MODES[tries % 4]
+        r = S.slice_history(rng, mode, sampled_target=(tries % 3 != 0))
+        if r is None: continue
+        h, info = r
+        ops, axes = h.program(frozen_nu=1.0 / h.Ne)
+        pts, dmax = pick_pts(ops)
+        cost = prog_cost(ops, pts)
+        if cost > budget: chk.stat('skipped:too-slow'); continue
+        ns = [int(rng.integers(2, 5)) for _ in h.samples]
+        fz5, anc, allanc, extra = graph_features(h, ops)
+        key = 'ancient:only-ancient' + extra
+        inp = dict(kind='graph', key=key, graph=h.graph_dict(), samples=h.samples, ops=ops, ns=ns, pts=pts, ndim=dmax, cost=2 * cost, describe=h.describe(), slice=info)
+        chk.l3(('slice', mode, info['target_sampled'], info['cut_epoch_index'], tuple(info['cut_fns']), tuple(h.describe()['events'])))
+        v = eval_case(chk, dadi, enc(inp))
+        if v == 'limit': continue
+        done += 1
+        chk.stat('slice:%s:%s' % (mode, 'sampled-deme' if info['target_sampled'] else 'unsampled-contemporary'))
+        chk.stat('slice:cut-epoch:%s' % ('boundary' if mode == 'boundary' else ('first' if info['cut_epoch_index'] == 0 else 'later')))
+        for f in info['cut_fns']: chk.stat('slice:cut-fn:' + f)
+        chk.sample(dict(family='slice', mode=mode, info=info, samples=h.samples, verdict=v), cap=8)
+
 def l3_metamorphic(chk, ctx, rng, n, budget):
     """units, scale, explicit reference size, order of the sampled demes"""
     dadi = ctx['dadi']
@@ -862,6 +931,40 @@ def edge_graph(kind):
                dict(op='integrate', T=10 / 200, nu=[('e' if fn == 'exponential' else 'l', n(20), n(10)), ('c', 0.6), ('c', 0.01)], M=[[0] * 3] * 3, frozen=[False, False, True]),
                dict(op='remove', axis=0), dict(op='reorder', order=[1, 0])]
         return gd, samples, ops
+    if kind in ('slice-exp-second-epoch', 'slice-linear-third-epoch'):
+        # a deme that is constant, then grows (second epoch exponential / third epoch linear), sampled only inside the growth
+        if kind == 'slice-exp-second-epoch':
+            epsA = [dict(end_time=600, start_size=100, end_size=100, size_function='constant'),
+                    dict(end_time=0, start_size=100, end_size=800, size_function='exponential')]
+            ts = 300.0
+        else:
+            epsA = [dict(end_time=700, start_size=100, end_size=100, size_function='constant'),
+                    dict(end_time=500, start_size=100, end_size=250, size_function='exponential'),
+                    dict(end_time=0, start_size=250, end_size=900, size_function='linear')]
+            ts = 200.0
+        gd = dict(time_units='generations', demes=[
+            dict(name='R', epochs=[dict(end_time=1000, start_size=200)]),
+            dict(name='A', ancestors=['R'], epochs=epsA),
+            dict(name='B', ancestors=['R'], epochs=[dict(end_time=0, start_size=150)])])
+        samples = [('A', ts), ('B', ts)]
+        Ne = 200.0
+        def szA(t):
+            st = 1000.0
+            for e in epsA:
+                if st >= t >= e['end_time']:
+                    return S.size_at(dict(start_time=st, end_time=e['end_time'], start_size=e['start_size'], end_size=e['end_size'], size_function=e['size_function']), t)
+                st = e['end_time']
+        ops = [dict(op='phi1d', nu=1.0), dict(op='newpop', props=[1.0])]
+        st = 1000.0
+        for e in epsA:
+            lo = max(e['end_time'], ts)
+            k = {'constant': 'c', 'exponential': 'e', 'linear': 'l'}[e['size_function']]
+            nuA = ('c', e['start_size'] / Ne) if k == 'c' else (k, szA(st) / Ne if st != 1000.0 or k != 'c' else e['start_size'] / Ne, szA(lo) / Ne)
+            if k != 'c': nuA = (k, e['start_size'] / Ne, szA(lo) / Ne)
+            ops.append(dict(op='integrate', T=(st - lo) / (2 * Ne), nu=[nuA, ('c', 150 / Ne)], M=[[0, 0], [0, 0]], frozen=[False, False]))
+            st = e['end_time']
+            if lo == ts: break
+        return gd, samples, ops
     if kind == 'only-ancient-descendants':
         gd = dict(time_units='generations', demes=[
             dict(name='R', epochs=[dict(end_time=50, start_size=100)]),
@@ -938,9 +1041,9 @@ EDGE_EXPORT['reorder-231-final'] = _reorder_edge([0, 1, 2])[:-2] + [dict(op='reo
 
 def edge_cases():
     out = []
-    for kind in ('slice-linear', 'slice-exponential', 'only-ancient-descendants', 'five-demes-frozen'):
+    for kind in ('slice-linear', 'slice-exponential', 'slice-exp-second-epoch', 'slice-linear-third-epoch', 'only-ancient-descendants', 'five-demes-frozen'):
         gd, samples, ops = edge_graph(kind)
-        key = {'slice-linear': 'ancient:only-ancient:slice-linear', 'slice-exponential': 'ancient:only-ancient',
+        key = {'slice-exp-second-epoch': 'ancient:only-ancient', 'slice-linear-third-epoch': 'ancient:only-ancient:slice-linear', 'slice-linear': 'ancient:only-ancient:slice-linear', 'slice-exponential': 'ancient:only-ancient',
                'only-ancient-descendants': 'ancient:only-ancient:descendants', 'five-demes-frozen': 'ancient:frozen5'}[kind]
         ndim = max(len(o['nu']) for o in ops if o['op'] == 'integrate')
         out.append(dict(kind='graph', key=key, which=kind, graph=gd, samples=samples, ops=ops, ns=[3] * len(samples),
@@ -1015,11 +1118,13 @@ def run(chk, ctx):
         timed('K events', k_events, chk, ctx, R('k-events'))
         timed('K export', k_export, chk, ctx, R('k-export'), 6 if quick else 40)
         timed('K names', k_names, chk, ctx, R('k-names'), 8 if quick else 24)
+        timed('K slice', k_slice, chk, ctx, R('k-slice'), 8 if quick else 60)
     if not any(e is not None for e in chk.translate.values()):
         guard_generated('after the correspondence')
     timed('L3 edges', l3_edges, chk, ctx)
     timed('L3 graph', l3_graph_vs_program, chk, ctx, R('graph'), 40 if quick else 500, False, 1.0 if quick else 4.0)
     timed('L3 ancient', l3_graph_vs_program, chk, ctx, R('ancient'), 14 if quick else 200, True, 1.0 if quick else 4.0)
+    timed('L3 slice', l3_slice, chk, ctx, R('slice'), 16 if quick else 240, 1.0 if quick else 4.0)
     timed('L3 metamorphic', l3_metamorphic, chk, ctx, R('metamorphic'), 10 if quick else 150, 1.0 if quick else 4.0)
     timed('L3 export', l3_export, chk, ctx, R('export'), 30 if quick else 400, 1.0 if quick else 4.0)
 
